@@ -684,7 +684,7 @@ func (o *oC15) OnIdle(k *Kernel) {
 		excessLegal := false
 		deleted := map[string]bool{}
 		for _, c := range calls {
-			if c.Fault == "reset-after" {
+			if c.Kind == "add" && (c.Fault == "reset-after" || c.Lost) {
 				excessLegal = true
 			}
 			if !c.Applied {
@@ -748,6 +748,12 @@ func (o *oC15) OnIdle(k *Kernel) {
 	}
 	for _, e := range o.addErr {
 		k.Violate("C15", "delivered", "queue-batch-dropped", "a batch of outlinks was dropped by the local queue: "+e)
+	}
+	// the queue has drained: every outlink handed to it must have come back out as a seed (once per distinct text)
+	for _, e := range o.out {
+		if o.t.taken[e.raw] == 0 && o.t.taken[e.raw+"~2"] == 0 {
+			k.Violate("C15", "delivered", "outlink-lost-in-queue", fmt.Sprintf("outlink %s (via %s, hops %d) was handed to the local queue but never came back out of it although the queue drained", e.raw, e.via, e.hops))
+		}
 	}
 	k.Probes["c15-outlinks-emitted"] += len(o.out)
 }
